@@ -38,6 +38,15 @@ def put(s,tag,body):
     if b in s:
         return s[:s.index(b)+len(b)]+'\n'+body+'\n'+s[s.index(e):]
     raise SystemExit('marker missing: '+tag)
+# as-built table from the evidence files
+rows2=["| property | tier of last run | harnesses (instances) | paths | obligations (discharged) | non-trivial solver queries | inconclusive | native validations | wall s |","|---|---|---|---|---|---|---|---|---|"]
+for f in sorted(glob.glob('/verif/evidence/C*.json')):
+    e=json.load(open(f)); c=e['coverage']; inc=c.get('inconclusive',{})
+    hs=', '.join(f"{k} ({v})" for k,v in sorted(c.get('instances_by_harness',{}).items()))
+    ninc=inc.get('obligations_unknown_or_timeout',0)+sum(inc.get('aborted_paths_by_reason',{}).values())
+    rows2.append(f"| {e['property_id']} | {e.get('tier')} | {hs} | {c.get('states')} | {c.get('obligations')} ({c.get('discharged')}) | {c.get('nontrivial_queries')} | {ninc} | {c.get('traces_validated_against_impl')} | {e.get('wall_s')} |")
+asbuilt='\n'.join(rows2)
+s=put(s,'asbuilt',asbuilt)
 s=put(s,'findings',findings)
 s=put(s,'seeded',seeded)
 open(D,'w').write(s)
